@@ -1,6 +1,6 @@
 (* C14 -- validating lazy APIs never hand out malformed fragments. Statements only. *)
 From Coq Require Import List Bool Arith NArith.
-From SonicV Require Import Model.SkipStr Model.SkipNum Model.SkipAll Model.Skip.
+From SonicV Require Import Spec.Ref Model.SkipStr Model.SkipNum Model.SkipAll Model.Skip Model.RefSound.
 Import ListNotations.
 Open Scope N_scope.
 
@@ -18,3 +18,9 @@ Proof. exact skip_sound_strict. Qed.
 Theorem skipped_number_is_wf : forall first l rest, (first = 45 \/ digit first = true) -> skip_num first l = Some rest ->
   exists num, first :: l = num ++ rest /\ is_number num.
 Proof. exact skip_num_sound. Qed.
+
+(* the reference get on arbitrary bytes (the oracle every returned span is compared with): whatever it
+   returns is a well-formed value located exactly at [a, b) inside the input *)
+Theorem reference_get_returns_wf_fragment : forall l p a b, ref_get l p = Some (a, b) ->
+  exists pre tok post, l = pre ++ tok ++ post /\ a = length pre /\ b = (a + length tok)%nat /\ Value tok.
+Proof. exact ref_get_sound. Qed.
